@@ -140,12 +140,17 @@ def conc_factor(r):
     m = r.get('model') or {}
     age = int(m.get('h', 0)) / 2
     ag = _ag().AgeGrader(cx['year'])
-    try:
-        got = ag.calculate_factor(cx['g'], age if age != int(age) else int(age), cx['ev'])
-    except Exception as e:
-        got = 'raises %s' % type(e).__name__
     want = spec_factor(ag, cx['g'], cx['ev'], age)
-    bad = not (isinstance(got, (int, float)) and want is not None and abs(got - want) <= 1e-12)
+    # a whole age may arrive as an int or as a float: both forms are the age of the model
+    for a_arg in ([int(age), float(age)] if age == int(age) else [age]):
+        try:
+            got = ag.calculate_factor(cx['g'], a_arg, cx['ev'])
+        except Exception as e:
+            got = 'raises %s' % type(e).__name__
+        bad = not (isinstance(got, (int, float)) and want is not None and abs(got - want) <= 1e-12)
+        if bad:
+            age = a_arg
+            break
     return dict(call='AgeGrader(%r).calculate_factor(%r,%r,%r)' % (cx['year'], cx['g'], age, cx['ev']), observed=got, required=want,
                 input=['factor', cx['year'], cx['g'], age, cx['ev']]), bad
 
@@ -214,6 +219,13 @@ def ground_chunk(args):
         want = spec_factor(obj, g, ev, age)
         if want is None:
             continue
+        if age == int(age):
+            # a whole age may arrive as an int or as a float (14 and 14.0 are the same age)
+            ref_f = call(obj.calculate_factor, g, float(age), ev)
+            n += 1
+            if ref_f != ref:
+                bad.append(('factor', g, float(age), ev, ref_f, want))
+                continue
         if ref[0] != 'ret' or isinstance(ref[1], bool) or not isinstance(ref[1], (int, float)) or not math.isfinite(ref[1]) or abs(ref[1] - want) > 1e-12:
             bad.append(('factor', g, a_arg, ev, ref, want))
             continue
@@ -303,7 +315,55 @@ def athlon_chunk(args):
     return ('athlons', g), n, bad[:6]
 
 
+YEAR_SPELLINGS = [2015, '2015', 2023, '2023', None]          # None: each wrapper's own default
+
+
+def wrappers_chunk(args):
+    """the package-level functions wma_age_factor / wma_world_best / wma_age_grade name the table by a `year` argument: for every
+    spelling of it the three must speak about the SAME table - the grade they report is (best / factor) / time (time events) or
+    mark / (best / factor) (field events) of the best and the factor they report"""
+    g, = args
+    import athlib
+    ag = _ag()
+    bad = []
+    n = 0
+    d = ag.AgeGrader('2023').get_data()
+    ages = d['ages']
+    for row in d[g]:
+        ev = row[0]
+        j0 = first_col(row)
+        if j0 is None:
+            continue
+        timed = not real_module('athlib.codes').PAT_FIELD.match(ev)
+        for yr in YEAR_SPELLINGS:
+            kw = {} if yr is None else {'year': yr}
+            for age in (ages[j0], 30 if ages[j0] <= 30 else ages[j0] + 1, 47.5, 62):
+                if age < ages[j0]:
+                    continue
+                n += 1
+                try:
+                    f = athlib.wma_age_factor(g, age, ev, **kw) if yr is not None else None
+                    b = athlib.wma_world_best(g, ev, **kw) if yr is not None else None
+                    if yr is None:
+                        continue          # the defaults of the three wrappers differ by design ('2015' vs '2023'): nothing to compare
+                    if not f or not b:
+                        continue
+                    mark = b * 1.07
+                    gr = athlib.wma_age_grade(g, age, ev, mark, **kw)
+                    std = b / f
+                    want = (std / mark) if timed else (mark / std)
+                    if not ulp_close(gr, want):
+                        bad.append(('wrappers-grade', g, age, ev, repr(yr), gr, want))
+                except Exception as e:
+                    bad.append(('wrappers-grade', g, age, ev, repr(yr), 'raises %s' % type(e).__name__, None))
+                if len(bad) > 4:
+                    return ('wrappers', g, 'all'), n, bad
+    return ('wrappers', g, 'all'), n, bad
+
+
 def _work(job):
+    if job[0] == 'wrap':
+        return ('ground',) + wrappers_chunk(job[1])
     if job[0] == 'sym':
         r = unit_factor(job[1])
         r['job'] = job
@@ -328,7 +388,7 @@ def replay(rep):
         _, year, g, age, ev = inp
         obj = ag.AgeGrader(year)
         try:
-            got = obj.calculate_factor(g, int(age) if age == int(age) else age, ev)
+            got = obj.calculate_factor(g, age, ev)          # the age in the form recorded (json keeps 14 and 14.0 apart)
         except Exception as e:
             got = 'raises %s' % type(e).__name__
         want = spec_factor(obj, g.lower()[0], ev, age)
@@ -338,6 +398,8 @@ def replay(rep):
         key, item = inp[1], inp[2]
         if key[0] == 'athlons':
             _, _, bad_ = athlon_chunk((key[1],))
+        elif key[0] == 'wrappers':
+            _, _, bad_ = wrappers_chunk((key[1],))
         else:
             d = ag.AgeGrader(key[0]).get_data()
             ri = [i for i, r in enumerate(d[key[1]]) if r[0] == key[2]][0]
@@ -379,7 +441,7 @@ def main(tier, seed):
                     continue
                 J.append(('sym', (year, g, ri)))
                 J.append(('gr', (year, g, ri)))
-    J += [('ath', ('m',)), ('ath', ('f',))]
+    J += [('ath', ('m',)), ('ath', ('f',)), ('wrap', ('m',)), ('wrap', ('f',))]
     results = report.pool_map(_work, J)
     gn = 0
     for res in results:
@@ -389,7 +451,9 @@ def main(tier, seed):
         if isinstance(res, tuple):
             _, key, n, bad = res
             gn += n
-            name = 'spelling-independence,best,grade-identities/%s-%s-%s' % key if key[0] != 'athlons' else 'athlon-factor=band-entry(1.0 below 35)/%s' % key[1]
+            name = ('spelling-independence,best,grade-identities/%s-%s-%s' % key if key[0] not in ('athlons', 'wrappers') else
+                    'athlon-factor=band-entry(1.0 below 35)/%s' % key[1] if key[0] == 'athlons' else
+                    'package-level-wrappers-speak-about-one-table-for-every-spelling-of-the-year/%s' % key[1])
             run.record(name, 'ground', 'refuted' if bad else 'proved', 'ground-evaluation', 0.0, 'ground')
             if bad:
                 e = run.match_known(name, dict(kind=bad[0][0], gender=bad[0][1], age=bad[0][2], event=bad[0][3]))
